@@ -86,6 +86,16 @@ CLAIMED["C18"] = dict(
    note="Trusted: Lean kernel; only the pager is modelled, the other operations are covered by fault-sequence enumeration against the real client (no model): their totality is observed, not proved. net/http parses status lines and Content-Length before the client sees them.",
    technique="Lean 4 proof (pager totality/progress by structural recursion on the answer script) + scripted-transport fault enumeration",
    design="§5 C18")
+CLAIMED["C15"] = dict(
+   text="Lean 4 theorems over a transcription of ociunify's combinators and a table regenerated from its five files: read_union (a digest-addressed read succeeds iff a member succeeds, and returns a member's answer, under both policies and both answer orders), tag_rule (agree or only one ⇒ that answer; differ ⇒ error), merge_sorted_union (strictly ascending, duplicate-free union; NAME_UNKNOWN from one member ignored, other errors delivered after the items; consumer protocol), success only if both members succeeded, composite upload-ID split/join, members_stay_equal over any deterministic machine and its Mem instance for issued IDs; `decide` obligations that every Writer/Deleter/BlobWriter mutator goes to both members with its own arguments, reads use first-success, tag reads the tag rule, listers the merge. Correspondence: two ocimem members in every relation (equal, disjoint, overlapping, conflicting tags, one-sided) x all read/list calls x both policies, write histories over equal members with snapshots, chunked uploads with resume, mergeIter over scripted members.",
+   note="Trusted: Lean kernel; translator's reading of ociunify (helper functions pinned by text); base64url/JSON of composite IDs as an abstract codec with a round-trip hypothesis; observable equality of members is proved for IDs the unifier issues (forged overlapping composite IDs are outside the property).",
+   technique="Lean 4 proof over regenerated combinator table (decide) + differential over member-state relations",
+   design="§5 C15")
+CLAIMED["C16"] = dict(
+   text="PARTIAL. Lean 4: a finite transition system mirroring runReadConcurrent and the reader wrapper (main's two selects, two senders, done channel, caller context, member outcomes, reader-closed and context-cancelled flags) for eight scenarios; the reachable set is computed and `decide +kernel` checks it is closed under every transition, every state is safe and every quiescent state is settled; lifted to all schedules by induction over paths: error only when both fail or the caller cancelled, returns the first success, the loser's reader is closed, the winner's context stays live until the returned reader is closed and is cancelled afterwards, no sender remains blocked, termination by a decreasing rank. Correspondence: gated fake members drive the real ociunify through all outcome pairs x completion orders x cancellation points for the five entry points, with goroutine-leak checks; observations must lie in the model's allowed set.",
+   note="Partial by nature: goroutine scheduling, channels, select and context are the model's primitives (trusted); the theorem is about the protocol built from them. `select` may pick either ready case, so the comparison is set membership, not a line diff; 'context still live' is sampled.",
+   technique="Lean 4 proof (kernel-checked inductive invariant of a finite transition system, lifted to all schedules) + gated-member schedule enumeration",
+   design="§5 C16")
 NOT_YET = {}
 
 def main():
